@@ -19,12 +19,25 @@ use std::{fmt, hash::Hash};
 //
 // requirements:
 // - values must be immutable
-#[derive(Default, Clone)]
+#[derive(Default)]
 pub struct IdSet<T: Hash + Eq> {
     map: HashMap<Ptr<T>, u32>,
     current_buf: Vec<T>, // TODO: instead of using Vec<T> for a buffer, maybe use a [MaybeUninit<T>], or even a raw buffer of bytes...
     old_bufs: Vec<Vec<T>>,
     id_to_ptr: Vec<*mut T>,
+}
+
+// `map` and `id_to_ptr` hold pointers into this set's own buffers, so they cannot be copied
+// field by field: the clone is rebuilt by inserting the elements in id order, which gives
+// every element the same id and the same position in the iteration order.
+impl<T: Hash + Eq + Clone> Clone for IdSet<T> {
+    fn clone(&self) -> Self {
+        let mut ret = Self::new();
+        for value in self.iter() {
+            ret.insert(value.clone());
+        }
+        ret
+    }
 }
 
 /// wrapper around *const T w
